@@ -108,6 +108,16 @@ CHECKS = {
               "graph-theoretic ones and with git merge-base / rev-list on the identical objects, with and without a commit-graph."),
         note="Trusted: engines/refmodels/dag.py (never disagreed with git on 651k queries), git 2.39.5. Walker exclusion/cut-offs are only required exact under non-decreasing clocks, as the statement says.",
     ),
+    "C14": dict(
+        engine="E3 statespace + E4 enum + E5 mutfault", category="exploration",
+        technique="exhaustive enumeration of histories x object layouts x accelerator subsets and writers (dulwich, C git) x staleness steps x foreign-file pairs; every query answered twice (with the files, and by the same history stored without any acceleration data) and compared",
+        text=("Every labelled DAG of <=2 commits, one per isomorphism class at n=3 and named n=4 shapes (thorough: all 75 DAGs with <=4 commits, <=3 parents) as real repositories (trees, blobs, annotated + lightweight tags, branches) x 7 storage layouts "
+              "(loose, one pack, split / overlapping packs, pack+loose, idx v1/v3) x all 15 subsets of {commit-graph, multi-pack-index, bitmap, packed-refs} and every writer variant (dulwich: reachable/all/tips commit-graph, bitmap with/without hash cache and "
+              "lookup table; C git) x 13 continuation steps that leave the files stale (new commit, new pack, repack, pack-loose, gc, deleted / moved / re-tagged refs with and without gc) x 30 ordered foreign-file pairs, on a freshly opened Repo and on the long-lived "
+              "Repo that wrote or cached the data; ~330 queries per state (getitem, contains, get_raw, iteration, parents, can_fast_forward, merge base, walks, find_shallow, get_depth, graph walker, MissingObjectFinder, reachable commits/objects, refs.as_dict, "
+              "get_peeled) must equal the answers of the plain run; stale or foreign files may be rejected with an ordinary error but never answer differently. Every truncation / byte substitution of each file is additionally run in a sandbox (informational: bit rot is outside the statement)."),
+        note="Trusted: the plain reference run (loose objects, loose refs) is itself validated against a trivial model (refs dict, explicit DAG, object set) on every history and step; git 2.39.5 as second writer. A vacuity guard requires every written file to be loaded by a fresh Repo.",
+    ),
     "C15": dict(
         engine="E4 enum + E6 sandbox", category="exploration",
         technique="bounded-exhaustive differential enumeration of every Rust/Python twin function in sandboxed workers (extension rebuilt from the working tree vs. fallbacks with the extension import blocked)",
